@@ -266,3 +266,28 @@ func (e *Engine) liftSplit(c *ChoiceStr, sep string) (Value, bool) {
 }
 
 var _ = types.Typ
+
+// liftBool2 lifts a native predicate over two (possibly choice) strings.
+func (e *Engine) liftBool2(a, b Value, f func(string, string) bool) Value {
+	ca, aok := a.(*ChoiceStr)
+	cb, bok := b.(*ChoiceStr)
+	switch {
+	case aok && bok:
+		acc := e.ts.Bool(false)
+		for i, x := range ca.alts {
+			for j, y := range cb.alts {
+				if f(x, y) {
+					acc = e.ts.Or(acc, e.ts.And(ca.guards[i], cb.guards[j]))
+				}
+			}
+		}
+		return termOrBool(acc)
+	case aok:
+		y := e.cs(b)
+		return e.liftStr(ca, func(x string) Value { return f(x, y) })
+	case bok:
+		x := e.cs(a)
+		return e.liftStr(cb, func(y string) Value { return f(x, y) })
+	}
+	return f(e.cs(a), e.cs(b))
+}
